@@ -204,6 +204,11 @@ class NpRef:
         if kind == "sqrt":
             return np.sqrt(v[0])
         if kind == "square":
+            if isinstance(v[0], np.complexfloating):
+                # numpy.square of a complex *scalar* is not a function of its argument: the first call in a process goes
+                # through the ufunc loop (fused multiply-add: real part of (0.1+0.1j)^2 is -8.3e-19), later calls through
+                # scalar math (0.0).  The 1-element array loop is deterministic.
+                return np.square(np.asarray([v[0]]))[0]
             return np.square(v[0])
         if kind == "minimum":
             # Python min semantics of the numpy/python targets: min(a, b) = b if b < a else a
